@@ -8,4 +8,4 @@ NOT_APPLICABLE = {}
 
 # Properties whose check has been reviewed by the coordinator and is registered in MANIFEST.json.
 # (A lib/props/<ID>.py file may exist earlier than that while its harness is still being built.)
-CLAIMED = ["C01", "C02", "C03", "C04", "C05", "C06", "C07", "C08", "C09", "C10", "C11", "C12", "C13", "C14", "C15", "C16", "C17", "C18", "C20"]
+CLAIMED = ["C01", "C02", "C03", "C04", "C05", "C06", "C07", "C08", "C09", "C10", "C11", "C12", "C13", "C14", "C15", "C16", "C17", "C18", "C19", "C20"]
